@@ -278,10 +278,7 @@ int main(int argc, char** argv) {
             int k = (int)e.at("k").num();
             std::string act = a + "(" + std::to_string(p) + "," + std::to_string(k) + ")";
             if (e.has("refused")) {
-                // spec: operation is refused (measured operand, or cx on equal operands is not an
-                // action at all and is left to the evaluator-level checks)
-                if (a == "cx" && p == k)
-                    continue;
+                // spec: operation is refused (measured operand, or cx naming one qubit twice)
                 QasmSimulator V = U;
                 bool threw = false;
                 try {
